@@ -80,6 +80,15 @@ def bench_equipment(name):
         extra = {'std_medium_gain_advanced_config.json': jio.load_json(TD / 'std_medium_gain_advanced_config.json')}
     elif name == 'ex-plain':
         return jio.load_equipment(EX / 'eqpt_config.json')
+    elif name.endswith('-op'):
+        # an operator's library: the SAME transponder type / mode names with other figures (OSNR +1.5 dB, cost 2c+1)
+        base = bench_equipment(name[:-3])
+        eq = copy.deepcopy(base)
+        for t in eq['Transceiver'].values():
+            for m in t.mode:
+                m['OSNR'] = m['OSNR'] + 1.5
+                m['cost'] = 2 * m['cost'] + 1
+        return eq
     else:
         raise KeyError(name)
     ej['Transceiver'] = ej['Transceiver'] + copy.deepcopy(VERIF_TRX)
@@ -107,7 +116,10 @@ def _topo(name):
 
 class _BenchEqpt(dict):
     def __getitem__(self, bench):
-        return dict.__getitem__(self, bench.split('@')[0])
+        base = bench.split('@')[0]
+        if base.endswith('%op'):                        # 'bench%op': the same topology under the operator's library
+            return dict.__getitem__(self, base[:-3]) + '-op'
+        return dict.__getitem__(self, base)
 
 
 BENCH_EQPT = _BenchEqpt({'meshV2': 'ex', 'meshV2+island': 'ex', 'testTopology': 'td', 'CORONET': 'ex'})
@@ -123,7 +135,7 @@ SIMS = {'': {},
 
 def split_bench(bench):
     base, _, sim = bench.partition('@')
-    return base, sim
+    return base.replace('%op', ''), sim
 
 
 def set_sim(sim):
